@@ -17,7 +17,8 @@ FILES = [
     "qucumber/callbacks/observable_evaluator.py",
 ]
 REQUIRED_THEOREMS = ["C18_first_stop", "C18_never_self", "C18_needs_history", "C18_variance_refused",
-                     "C18_unknown_criterion", "C18_deprecated_eq", "C18_degenerate_no_stop", "C18_tolerance_infinite"]
+                     "C18_unknown_criterion", "C18_deprecated_eq", "C18_degenerate_no_stop", "C18_tolerance_infinite",
+                     "C18_first_stop_multi", "C18_stop_request_stands", "C18_stop_request_stands_dispatch"]
 EXTRA_TRUSTED = [
     "C18: the monitored values are scripted functions of the epoch; float64 sub/div/abs/sqrt and `<` of Lean's Float are IEEE, "
     "as are Python's and numpy's, so decisions are compared exactly",
@@ -33,7 +34,13 @@ RULE = ("case = (criterion, evaluator class, patience 1..5, evaluator period 1..
         "{0,1e-3,1,inf}, starting epoch, number of epochs, scripted value sequence [monotone | oscillating | constant | zeros | plateau | "
         "nonfinite (nan, +-inf, huge)] with Python-float / numpy-float / mixed / Python-int / 0-dim-tensor kinds, variances for the variance "
         "criterion (incl. 0, negative, nan, inf), optional evaluator-only pre-run); "
-        "non-trivial iff at least one comparison took place (some checked epoch had more than `patience` evaluations); distinct by hash")
+        "non-trivial iff at least one comparison took place (some checked epoch had more than `patience` evaluations); distinct by hash. "
+        "MULTI cases (several stop sources in ONE fit): callback list = sources before the evaluator ++ [evaluator tracking 1-2 quantities] ++ "
+        "sources after it; a source is an EarlyStopping / VarianceBasedEarlyStopping (own criterion, patience 1..4, period 1..3, tolerance, "
+        "quantity; one 'eager' one with a large tolerance, the others 'reluctant' with tolerance 0 / 1e-3) or a callback that sets "
+        "stop_training = True at one epoch (in on_epoch_end, as a CallbackBase subclass or a LambdaCallback, or in on_batch_end of that epoch); "
+        "also two EVALUATORS (own periods, the same or different quantity names) with one stopper bound to each, all callbacks in "
+        "a shuffled list order (oracle only); non-trivial iff some stopper made a comparison")
 
 
 # ---------------------------------------------------------------- scripted sequences
@@ -298,6 +305,446 @@ def one_case(ctx, case, known_probe=False):
                    detail={"impl": impl}, sig=f"{sig0}/needs-history-oracle", theorem="C18_needs_history")
 
 
+# ---------------------------------------------------------------- several stop sources in ONE fit (hardening round 4)
+class Requester(qc.qucumber.callbacks.CallbackBase):
+    """any other callback that asks for a stop: sets `stop_training = True` at the end of the given epochs, or at the end of a
+    batch of those epochs (`fit` then still dispatches that epoch's on_epoch_end to every callback)"""
+
+    def __init__(self, epochs, when):
+        self.epochs, self.when = set(epochs), when
+
+    def on_epoch_end(self, st, ep):
+        if self.when == "epoch_end" and ep in self.epochs:
+            st.stop_training = True
+
+    def on_batch_end(self, st, ep, b):
+        if self.when == "batch_end" and ep in self.epochs:
+            st.stop_training = True
+
+
+def build_source(src, case, ev):
+    from qucumber.callbacks import EarlyStopping, LambdaCallback, VarianceBasedEarlyStopping
+
+    if src["kind"] == "request":
+        if src.get("form") == "lambda" and src["when"] == "epoch_end":
+            eps = set(src["epochs"])
+
+            def ask(st, ep):
+                if ep in eps:
+                    st.stop_training = True
+            return LambdaCallback(on_epoch_end=ask)
+        return Requester(src["epochs"], src["when"])
+    name = case["quantities"][src["q"]]["name"]
+    if src.get("deprecated"):
+        return VarianceBasedEarlyStopping(src["ps"], src["tol"], src["patience_arg"], ev, name)
+    return EarlyStopping(src["ps"], src["tol"], src["patience_arg"], ev, name, criterion=src["criterion_str"])
+
+
+def run_impl_multi(case):
+    from qucumber.callbacks import MetricEvaluator, ObservableEvaluator
+    from qucumber.observables import SigmaZ
+
+    torch.manual_seed(0)
+    st = qc.PositiveWaveFunction(2, 2, gpu=False)
+    data = torch.tensor([[0, 1], [1, 1], [1, 0], [0, 0]], dtype=torch.double)
+    table = {e: w for e, w in case["pre"] + case["cands"]}
+    rec = EpochRecorder(table)
+    qs = case["quantities"]
+    vals = [[as_kind(k, x) for k, x in zip(q["kinds"], q["vals"])] for q in qs]
+    vars_ = [[as_kind(k, x) for k, x in zip(q["vkinds"], q["vars"])] for q in qs]
+    if case["ek"] == "metric":
+        ev = MetricEvaluator(case["pe"], {q["name"]: (lambda nn_state, i=i: vals[i][rec.cur]) for i, q in enumerate(qs)})
+    else:
+        obs = []
+        for q in qs:
+            o = SigmaZ()
+            o.name = q["name"]
+            obs.append(o)
+        ev = ObservableEvaluator(case["pe"], obs, num_samples=2)
+        ev.system.statistics = lambda nn_state, **kw: {q["name"]: {"mean": vals[i][rec.cur], "variance": vars_[i][rec.cur],
+                                                                    "std_error": 0.0, "num_samples": 1} for i, q in enumerate(qs)}
+    try:
+        with warnings.catch_warnings():
+            warnings.simplefilter("ignore")
+            before = [build_source(s_, case, ev) for s_ in case["before"]]
+            after = [build_source(s_, case, ev) for s_ in case["after"]]
+    except Exception as e:  # noqa: BLE001
+        return {"error": type(e).__name__, "where": "constructor"}
+    tail = Tail(rec)
+    with warnings.catch_warnings():
+        warnings.simplefilter("ignore")
+        try:
+            if case["pre"]:
+                st.fit(data, epochs=case["pre"][-1][0], starting_epoch=case["pre"][0][0], pos_batch_size=4, k=1, lr=0.01,
+                       callbacks=[rec, ev, tail])
+                rec.fired = []
+            if case["cands"]:
+                st.fit(data, epochs=case["cands"][-1][0], starting_epoch=case["cands"][0][0], pos_batch_size=4, k=1, lr=0.01,
+                       callbacks=[rec] + before + [ev] + after + [tail])
+        except Exception as e:  # noqa: BLE001
+            return {"error": type(e).__name__, "where": "fit", "fired_before": list(rec.fired)}
+    lasts = [cb.last_epoch for s_, cb in zip(case["before"] + case["after"], before + after) if s_["kind"] == "stopper"]
+    return {"stop": bool(st.stop_training), "fired": list(rec.fired), "lasts": lasts, "len": len(ev), "epochs": [int(x) for x in ev.epochs]}
+
+
+def dispatch_order(case):
+    """the stop sources in the order in which their request can reach the flag within one epoch: batch-end requests first (the batch
+    loop ends before the epoch-end dispatch), then the list order. Entries: (source, listed_after_evaluator)"""
+    srcs = [(s_, False) for s_ in case["before"]] + [(s_, True) for s_ in case["after"]]
+    early = [x for x in srcs if x[0]["kind"] == "request" and x[0]["when"] == "batch_end"]
+    return early + [x for x in srcs if not (x[0]["kind"] == "request" and x[0]["when"] == "batch_end")]
+
+
+def reference_multi(case):
+    """the documented rule of EVERY stopper + the other requests, independently of the code: training stops at the first epoch at
+    which some source asks. Returns (stop_epoch | None, fired, compared?, asking: indices into dispatch_order at the stop epoch,
+    contested: a stopper dispatched after the first asking source was eligible there and did NOT ask)"""
+    pe = case["pe"]
+    hist = [w for e, w in case["pre"] if e % pe == 0]
+    order = dispatch_order(case)
+    fired, compared = [], False
+    for e, w in case["cands"]:
+        fired.append(e)
+        asking, eligible_silent = [], []
+        for k, (src, after_ev) in enumerate(order):
+            if src["kind"] == "request":
+                if e in src["epochs"]:
+                    asking.append(k)
+                continue
+            h = hist + [w] if (after_ev and e % pe == 0) else hist
+            t, p = len(h) - 1, src["patience"]
+            if e % src["ps"] == 0 and t >= p:
+                compared = True
+                q = case["quantities"][src["q"]]
+                dev = spec_deviation(src["criterion"], float(q["vals"][h[t - p]]), float(q["vals"][h[t]]), float(q["vars"][h[t - p]]))
+                if dev is not None and dev < src["tol"]:
+                    asking.append(k)
+                else:
+                    eligible_silent.append(k)
+        if e % pe == 0:
+            hist.append(w)
+        if asking:
+            return e, fired, compared, asking, any(k > asking[0] for k in eligible_silent)
+    return None, fired, compared, [], False
+
+
+def model_partition(case):
+    """the model's callback list: a batch-end request reaches the flag before the whole epoch-end dispatch, so it stands at the front of
+    `before` wherever the callback is listed; everything else keeps its side of the evaluator and its order"""
+    order = dispatch_order(case)
+
+    def early(s_):
+        return s_["kind"] == "request" and s_["when"] == "batch_end"
+    return [s_ for s_, a in order if early(s_) or not a], [s_ for s_, a in order if a and not early(s_)]
+
+
+def model_args_multi(case):
+    def num(kinds, xs):
+        return [[model_kind(k), f2b(x)] for k, x in zip(kinds, xs)]
+
+    def src_args(src):
+        if src["kind"] == "request":
+            return {"kind": "request", "epochs": src["epochs"]}
+        return {"kind": "stopper", "ps": src["ps"], "tol": f2b(src["tol"]), "patience": math.trunc(src["patience_arg"]), "ek": case["ek"],
+                "name": case["quantities"][src["q"]]["name"], "criterion": src["criterion_str"], "deprecated": bool(src.get("deprecated"))}
+    mb, ma = model_partition(case)
+    return dict(ek=case["ek"], pe=case["pe"], pre=case["pre"], cands=case["cands"],
+                quantities=[{"name": q["name"], "vals": num(q["kinds"], q["vals"]), "vars": num(q["vkinds"], q["vars"])} for q in case["quantities"]],
+                before=[src_args(s_) for s_ in mb], after=[src_args(s_) for s_ in ma])
+
+
+def one_multi(ctx, case):
+    if case.get("two_evaluators"):
+        return one_chain(ctx, case)
+    impl = run_impl_multi(case)
+    ref_stop, ref_fired, compared, asking, contested = reference_multi(case)
+    order = dispatch_order(case)
+    stoppers = [k for k, (s_, _) in enumerate(order) if s_["kind"] == "stopper"]      # same relative order as impl["lasts"]
+    sig0 = "EarlyStopping/multi"
+    ctx.case(case, nontrivial=compared, sample={"multi": case["scenario"], "ek": case["ek"], "pe": case["pe"],
+                                                "sources": [[s_["kind"], s_.get("criterion"), s_.get("patience"), s_.get("ps"), s_.get("tol"), a]
+                                                            for s_, a in order],
+                                                "impl": {k: impl.get(k) for k in ("stop", "fired", "lasts", "error")}})
+    ctx.count("multi.scenario=" + case["scenario"])
+    ctx.count("multi.outcome=" + ("error:" + impl["error"] if "error" in impl else ("stop" if impl["stop"] else "no-stop")))
+    ctx.count("multi.sources=%d" % len(order))
+    if ref_stop is not None:
+        ctx.count("multi.first-asking=" + order[asking[0]][0]["kind"] + ("/" + order[asking[0]][0].get("when", "") if order[asking[0]][0]["kind"] == "request" else ""))
+        if contested:
+            ctx.count("multi.contested-stop (an eligible, unconverged stopper is dispatched after the asking source)")
+        if len(asking) > 1:
+            ctx.count("multi.several-sources-ask-in-one-epoch")
+    # `last_epoch` of a stopper whose rule is met in the stopping epoch AFTER another source has already asked is not constrained by the
+    # property (training is stopped there either way): masked on both sides
+    masked = {k for k in asking[1:]}
+
+    def mask(lasts):
+        return ["*" if k in masked else v for k, v in zip(stoppers, lasts)]
+    th = "C18_first_stop_multi, C18_stop_request_stands_dispatch"
+    if ctx.driver is not None:
+        m = ctx.driver.call("c18.fit_multi", **model_args_multi(case))
+        if "error" in m or "error" in impl:
+            ctx.point("multi.exception", "property", impl.get("error"), m.get("error"), case, exact=True, sig=f"{sig0}/exception", theorem=th)
+        else:
+            mo = m["ok"]
+            mb, ma = model_partition(case)
+            m_lasts = [v for s_, v in zip(mb, mo["lasts_before"]) if s_["kind"] == "stopper"] + \
+                      [v for s_, v in zip(ma, mo["lasts_after"]) if s_["kind"] == "stopper"]
+            ctx.point("multi.stop", "property", impl["stop"], mo["stop"], case, exact=True, sig=f"{sig0}/stop-flag", theorem=th)
+            ctx.point("multi.fired", "property", impl["fired"], mo["fired"], case, exact=True, sig=f"{sig0}/stopping-epoch", theorem=th)
+            ctx.point("multi.last_epoch", "property", mask(impl["lasts"]), mask(m_lasts), case, exact=True, sig=f"{sig0}/last_epoch", theorem=th)
+            ctx.point("multi.evaluator.len", "aux", impl["len"], mo["len"], case, exact=True, sig=f"{sig0}/evaluator-len")
+    if "error" in impl:
+        ctx.oracle("fit with several stop sources raised", False, case, detail={"impl": impl}, sig=f"{sig0}/unexpected-exception", theorem=th)
+        return
+    ok = impl["stop"] == (ref_stop is not None) and impl["fired"] == ref_fired
+    ctx.oracle("several stop sources: training stops at the first epoch at which ANY source asks (a stopper's documented rule is met, or "
+               "another callback requested it), and at no earlier epoch; a request once made stands", ok, case,
+               detail={"impl": {k: impl[k] for k in ("stop", "fired", "lasts")}, "reference_stop_epoch": ref_stop, "reference_fired": ref_fired,
+                       "asking_sources_in_dispatch_order": asking}, sig=f"{sig0}/first-stop-oracle", theorem=th)
+    want = [ref_stop if k in asking else None for k in stoppers]
+    ctx.oracle("several stop sources: last_epoch is set exactly for the stopper whose rule stopped the run",
+               mask(impl["lasts"]) == mask(want), case, detail={"impl": impl["lasts"], "expected": mask(want)},
+               sig=f"{sig0}/last_epoch-oracle", theorem="C18_first_stop_multi")
+
+
+# ---- stoppers bound to DIFFERENT evaluators in one fit (oracle only: the Lean model has one evaluator per run; each stopper's decision
+#      on its own evaluator is C18_first_stop, the flag through the dispatch C18_stop_request_stands_dispatch)
+def build_evaluator(evd, qs, rec):
+    from qucumber.callbacks import MetricEvaluator, ObservableEvaluator
+    from qucumber.observables import SigmaZ
+
+    vals = [[as_kind(k, x) for k, x in zip(q["kinds"], q["vals"])] for q in qs]
+    vars_ = [[as_kind(k, x) for k, x in zip(q["vkinds"], q["vars"])] for q in qs]
+    if evd["ek"] == "metric":
+        return MetricEvaluator(evd["pe"], {q["name"]: (lambda nn_state, i=i: vals[i][rec.cur]) for i, q in enumerate(qs)})
+    obs = []
+    for q in qs:
+        o = SigmaZ()
+        o.name = q["name"]
+        obs.append(o)
+    ev = ObservableEvaluator(evd["pe"], obs, num_samples=2)
+    ev.system.statistics = lambda nn_state, **kw: {q["name"]: {"mean": vals[i][rec.cur], "variance": vars_[i][rec.cur],
+                                                                "std_error": 0.0, "num_samples": 1} for i, q in enumerate(qs)}
+    return ev
+
+
+def run_impl_chain(case):
+    torch.manual_seed(0)
+    st = qc.PositiveWaveFunction(2, 2, gpu=False)
+    data = torch.tensor([[0, 1], [1, 1], [1, 0], [0, 0]], dtype=torch.double)
+    rec = EpochRecorder({e: w for e, w in case["cands"]})
+    qs = case["quantities"]
+    evs = [build_evaluator(evd, [q for q in qs if q["ev"] == i], rec) for i, evd in enumerate(case["evaluators"])]
+    cbs, stoppers = [], []
+    try:
+        with warnings.catch_warnings():
+            warnings.simplefilter("ignore")
+            for it in case["chain"]:
+                if it["kind"] == "evaluator":
+                    cbs.append(evs[it["i"]])
+                else:
+                    cb = build_source(it, case, evs[qs[it["q"]]["ev"]] if it["kind"] == "stopper" else None)
+                    cbs.append(cb)
+                    if it["kind"] == "stopper":
+                        stoppers.append(cb)
+    except Exception as e:  # noqa: BLE001
+        return {"error": type(e).__name__, "where": "constructor"}
+    with warnings.catch_warnings():
+        warnings.simplefilter("ignore")
+        try:
+            st.fit(data, epochs=case["cands"][-1][0], starting_epoch=case["cands"][0][0], pos_batch_size=4, k=1, lr=0.01,
+                   callbacks=[rec] + cbs + [Tail(rec)])
+        except Exception as e:  # noqa: BLE001
+            return {"error": type(e).__name__, "where": "fit", "fired_before": list(rec.fired)}
+    return {"stop": bool(st.stop_training), "fired": list(rec.fired), "lasts": [cb.last_epoch for cb in stoppers], "lens": [len(ev) for ev in evs]}
+
+
+def reference_chain(case):
+    """walk the callback list as documented: each evaluator appends its evaluation at its own period, each stopper applies ITS rule to
+    ITS evaluator's history as it is at that point of the dispatch, requests ask at their epochs. -> (stop epoch, fired, compared,
+    asking stoppers / requests as positions in the dispatch order, positions of the stoppers)"""
+    qs = case["quantities"]
+    hist = [[] for _ in case["evaluators"]]
+    early = [it for it in case["chain"] if it["kind"] == "request" and it["when"] == "batch_end"]
+    order = early + [it for it in case["chain"] if not (it["kind"] == "request" and it["when"] == "batch_end")]
+    stoppers = [k for k, it in enumerate(order) if it["kind"] == "stopper"]
+    fired, compared = [], False
+    for e, w in case["cands"]:
+        fired.append(e)
+        asking = []
+        for k, it in enumerate(order):
+            if it["kind"] == "evaluator":
+                if e % case["evaluators"][it["i"]]["pe"] == 0:
+                    hist[it["i"]].append(w)
+            elif it["kind"] == "request":
+                if e in it["epochs"]:
+                    asking.append(k)
+            else:
+                q = qs[it["q"]]
+                h = hist[q["ev"]]
+                t, p = len(h) - 1, it["patience"]
+                if e % it["ps"] == 0 and t >= p:
+                    compared = True
+                    dev = spec_deviation(it["criterion"], float(q["vals"][h[t - p]]), float(q["vals"][h[t]]), float(q["vars"][h[t - p]]))
+                    if dev is not None and dev < it["tol"]:
+                        asking.append(k)
+        if asking:
+            return e, fired, compared, asking, stoppers
+    return None, fired, compared, [], stoppers
+
+
+def one_chain(ctx, case):
+    impl = run_impl_chain(case)
+    ref_stop, ref_fired, compared, asking, stoppers = reference_chain(case)
+    sig0 = "EarlyStopping/multi/two-evaluators"
+    ctx.case(case, nontrivial=compared, sample={"multi": "two_evaluators", "chain": [[it["kind"], it.get("i", it.get("q"))] for it in case["chain"]],
+                                                "impl": {k: impl.get(k) for k in ("stop", "fired", "lasts", "error")}})
+    ctx.count("multi.scenario=two_evaluators")
+    ctx.count("multi.outcome=" + ("error:" + impl["error"] if "error" in impl else ("stop" if impl["stop"] else "no-stop")))
+    th = "C18_first_stop (each stopper on its own evaluator), C18_stop_request_stands_dispatch"
+    if "error" in impl:
+        ctx.oracle("fit with stoppers on two evaluators raised", False, case, detail={"impl": impl}, sig=f"{sig0}/unexpected-exception", theorem=th)
+        return
+    masked = set(asking[1:])
+    want = ["*" if k in masked else (ref_stop if k in asking else None) for k in stoppers]
+    got = ["*" if k in masked else v for k, v in zip(stoppers, impl["lasts"])]
+    ctx.oracle("stoppers bound to different evaluators: training stops at the first epoch at which any stopper's rule holds ON ITS OWN "
+               "evaluator's history (or another callback asks), and at no earlier epoch",
+               impl["stop"] == (ref_stop is not None) and impl["fired"] == ref_fired and got == want, case,
+               detail={"impl": {k: impl[k] for k in ("stop", "fired", "lasts")}, "reference_stop_epoch": ref_stop, "reference_fired": ref_fired,
+                       "expected_last_epochs": want}, sig=f"{sig0}/first-stop-oracle", theorem=th)
+
+
+def mk_chain(rng):
+    evaluators = [{"ek": rng.choice(["metric", "metric", "observable"]), "pe": rng.choice([1, 1, 2, 3])} for _ in range(2)]
+    stoppers = []
+    for k in range(2):
+        crit = rng.choice(["relative", "absolute"] + (["variance", "variance"] if evaluators[k]["ek"] == "observable" else []))
+        p = rng.choice([1, 1, 2, 3])
+        tol = rng.choice([1.0, float("inf"), 1e-3]) if k == 0 else rng.choice([0.0, 0.0, 1e-3, 1.0])
+        stoppers.append({"kind": "stopper", "criterion": crit, "criterion_str": crit, "patience": p, "patience_arg": p,
+                         "ps": rng.choice([1, 1, 2]), "tol": tol, "q": k, "deprecated": crit == "variance" and rng.random() < 0.3})
+    n = (max(s_["patience"] for s_ in stoppers) + 2) * max(e_["pe"] for e_ in evaluators) + rng.choice([1, 2, 3])
+    start = rng.choice([1, 1, 0, 3])
+    cands = [[start + i, i] for i in range(n)]
+    chain = [{"kind": "evaluator", "i": 0}, {"kind": "evaluator", "i": 1}] + stoppers
+    if rng.random() < 0.3:
+        chain.append({"kind": "request", "epochs": [cands[rng.randrange(n // 2, n)][0]], "when": rng.choice(["epoch_end", "batch_end"]),
+                      "form": rng.choice(["class", "lambda"])})
+    rng.shuffle(chain)
+    kindmode = rng.choice(KINDMODES)
+    quantities = []
+    for i in range(2):
+        fam = rng.choice(FAMILIES)
+        quantities.append({"name": ["Q", "R"][i] if rng.random() < 0.7 else "Q", "ev": i, "family": fam, "vals": make_seq(rng, fam, n),
+                           "kinds": make_kinds(rng, kindmode, n), "vars": [rng.choice([0.25, 1.0, 4.0, 100.0]) for _ in range(n)],
+                           "vkinds": make_kinds(rng, kindmode, n)})
+    return {"multi": True, "two_evaluators": True, "scenario": "two_evaluators", "evaluators": evaluators, "quantities": quantities,
+            "chain": chain, "pre": [], "cands": cands, "kindmode": kindmode, "valid": True}
+
+
+MULTI_SCENARIOS = ["two_stoppers", "two_stoppers", "two_quantities", "request_epoch_end", "request_batch_end", "mixed", "stopper_then_request"]
+
+
+def mk_multi(rng, scenario, thorough=False):
+    pe = rng.choice([1, 1, 2, 3])
+    ek = rng.choice(["metric", "metric", "observable"])
+    nq = 2 if scenario == "two_quantities" else rng.choice([1, 1, 2])
+    n_st = {"two_stoppers": 2, "two_quantities": 2, "request_epoch_end": 1, "request_batch_end": 1, "stopper_then_request": 1,
+            "mixed": rng.choice([2, 3])}[scenario]
+    crits = ["relative", "absolute"] + (["variance", "variance"] if ek == "observable" else [])
+    stoppers = []
+    for k in range(n_st):
+        crit = rng.choice(crits)
+        p = rng.choice([1, 1, 2, 3, 4])
+        # one eager stopper (asks as soon as it may compare, or soon after), the others reluctant (eligible but not converged)
+        eager = (k == 0) if scenario != "request_epoch_end" and scenario != "request_batch_end" else False
+        tol = rng.choice([1.0, float("inf"), 1e-3, 1.0]) if eager else rng.choice([0.0, 0.0, 1e-3])
+        dep = crit == "variance" and rng.random() < 0.3
+        stoppers.append({"kind": "stopper", "criterion": crit, "criterion_str": rng.choice([crit, crit.upper(), " " + crit.capitalize() + "\t"]),
+                         "patience": p, "patience_arg": rng.choice([p, p, p + 0.7]), "ps": rng.choice([1, 1, 1, 2, 3]), "tol": tol,
+                         "q": k % nq if scenario == "two_quantities" else rng.randrange(nq), "deprecated": dep, "eager": eager})
+    maxp = max(s_["patience"] for s_ in stoppers)
+    if scenario != "request_epoch_end" and scenario != "request_batch_end" and rng.random() < 0.7:
+        # the eager stopper has the LONGEST history requirement: when it first asks, the others are already comparing
+        stoppers[0]["patience"] = maxp
+        stoppers[0]["patience_arg"] = maxp
+    n = (maxp + 2) * pe + rng.choice([1, 2, 3, 4])
+    start = rng.choice([1, 1, 1, 0, 2, 5])
+    n_pre = rng.choice([0, 0, 0, 2, 4])
+    pre = [[start + i, i] for i in range(n_pre)]
+    s2 = start + n_pre + (rng.choice([0, 2]) if n_pre else 0)
+    cands = [[s2 + i, n_pre + i] for i in range(n)]
+    total = n_pre + n
+    sources = list(stoppers)
+    if scenario in ("request_epoch_end", "request_batch_end", "mixed", "stopper_then_request"):
+        # a request in the second half of the run, where the stoppers are comparing (and, reluctant, not converged)
+        at = cands[rng.randrange(n // 2, n)][0]
+        when = "batch_end" if scenario == "request_batch_end" or (scenario == "mixed" and rng.random() < 0.4) else "epoch_end"
+        sources.append({"kind": "request", "epochs": [at], "when": when, "form": rng.choice(["class", "lambda"])})
+    if scenario == "stopper_then_request":
+        sources.reverse()          # the request is listed FIRST: the (eager) stopper comes after it
+    elif scenario in ("request_epoch_end", "request_batch_end"):
+        sources.reverse()
+        if rng.random() < 0.3:
+            rng.shuffle(sources)
+    else:
+        rng.shuffle(sources)
+    before, after = [], []
+    for s_ in sources:
+        (after if rng.random() < 0.7 else before).append(s_)
+    kindmode = rng.choice(KINDMODES)
+    names = []
+    for i in range(nq):
+        nm = QUANTITY_NAMES[(5 * maxp + 3 * pe + total + 7 * i) % len(QUANTITY_NAMES)]
+        names.append(nm if nm not in names else nm + "_2")
+    quantities = []
+    for i in range(nq):
+        fam = rng.choice(FAMILIES)
+        vars_ = [rng.choice([0.25, 1.0, 4.0, 1e-6, 100.0]) for _ in range(total)]
+        if rng.random() < 0.2:
+            vars_[rng.randrange(total)] = rng.choice([0.0, -1.0, float("nan")])
+        quantities.append({"name": names[i], "family": fam, "vals": make_seq(rng, fam, total), "kinds": make_kinds(rng, kindmode, total),
+                           "vars": vars_, "vkinds": make_kinds(rng, kindmode, total)})
+    return {"multi": True, "scenario": scenario, "ek": ek, "pe": pe, "quantities": quantities, "before": before, "after": after,
+            "pre": pre, "cands": cands, "kindmode": kindmode, "valid": True}
+
+
+def demo_like_multi():
+    """fixed witnesses: an eager stopper followed by a reluctant one (and the reverse order, and a request before a reluctant stopper)"""
+    seq = [10.0, 8.0, 6.0, 5.8, 5.0, 4.0, 3.0, 2.0, 1.0, 0.5, 0.2, 0.1]
+    n = len(seq)
+
+    def st(crit, tol, p, ps=1):
+        return {"kind": "stopper", "criterion": crit, "criterion_str": crit, "patience": p, "patience_arg": p, "ps": ps, "tol": tol, "q": 0,
+                "deprecated": False}
+    base = {"multi": True, "ek": "metric", "pe": 1, "pre": [], "cands": [[1 + i, i] for i in range(n)], "kindmode": "py", "valid": True,
+            "quantities": [{"name": "m", "family": "monotone", "vals": seq, "kinds": ["py"] * n, "vars": [1.0] * n, "vkinds": ["py"] * n}]}
+    a, b = st("absolute", 0.5, 1), st("relative", 1e-9, 2)
+    yield {**base, "scenario": "witness", "before": [], "after": [a, b]}
+    yield {**base, "scenario": "witness", "before": [], "after": [b, a]}
+    yield {**base, "scenario": "witness", "before": [a], "after": [b]}
+    yield {**base, "scenario": "witness", "before": [a, b], "after": []}
+    yield {**base, "scenario": "witness", "before": [], "after": [{"kind": "request", "epochs": [6], "when": "epoch_end", "form": "class"}, b]}
+    yield {**base, "scenario": "witness", "before": [{"kind": "request", "epochs": [6], "when": "epoch_end", "form": "lambda"}], "after": [b]}
+    yield {**base, "scenario": "witness", "before": [], "after": [b, {"kind": "request", "epochs": [6], "when": "batch_end", "form": "class"}]}
+    # the deprecated class as the reluctant stopper behind an eager one (observable evaluator), in both positions
+    d = {**st("variance", 0.0, 1), "criterion_str": "variance", "deprecated": True}
+    yield {**base, "scenario": "witness", "ek": "observable", "before": [], "after": [a, d]}
+    yield {**base, "scenario": "witness", "ek": "observable", "before": [a], "after": [d]}
+    yield {**base, "scenario": "witness", "ek": "observable", "before": [],
+           "after": [{"kind": "request", "epochs": [5], "when": "epoch_end", "form": "lambda"}, d]}
+
+
+def gen_multi(ctx, thorough):
+    yield from demo_like_multi()
+    for i in range(900 if thorough else 150):
+        yield mk_multi(ctx.rng, MULTI_SCENARIOS[i % len(MULTI_SCENARIOS)], thorough)
+    for i in range(240 if thorough else 40):
+        yield mk_chain(ctx.rng)
+
+
 # ---------------------------------------------------------------- generation
 TOLS = [0.0, 1e-3, 1.0, float("inf")]
 FAMILIES = ["monotone", "oscillating", "constant", "zeros", "plateau", "nonfinite"]
@@ -457,6 +904,8 @@ def run(ctx):
         if case["criterion"] == "variance" and ndep < (60 if ctx.tier == "thorough" else 12):
             deprecated_twin(ctx, case)
             ndep += 1
+    for case in gen_multi(ctx, ctx.tier == "thorough"):
+        one_multi(ctx, case)
     # a quantity the evaluator does not track: KeyError out of fit at the first comparison
     bad = {**f8_witness(), "criterion": "absolute", "criterion_str": "absolute", "vals": [1.0, 2.0, 3.0, 4.0, 5.0],
            "ek": ctx.rng.choice(["metric", "observable"]), "tracked_name": "other", "valid": False}
@@ -473,6 +922,8 @@ def search(ctx):
         one_case(ctx, f8_witness(), known_probe=True)
         for case in gen_cases(ctx, True):
             one_case(ctx, case)
+        for case in gen_multi(ctx, True):
+            one_multi(ctx, case)
         for case in ctor_cases(ctx.rng):
             run_ctor(ctx, case)
     finally:
@@ -480,7 +931,9 @@ def search(ctx):
 
 
 def replay(ctx, case):
-    if not case.get("valid", True) and "cands" in case and case.get("ek") in ("metric", "observable", "other") and "criterion_str" in case \
+    if case.get("multi"):
+        one_multi(ctx, case)
+    elif not case.get("valid", True) and "cands" in case and case.get("ek") in ("metric", "observable", "other") and "criterion_str" in case \
             and not case.get("tracked_name"):
         run_ctor(ctx, case)
     else:
